@@ -1003,3 +1003,123 @@ Definition run_geom_more (pos ori sp : arg) (ss : Q) (nf rows cols : Z) : val :=
         match g_direction G with Some D => vcols D | None => vinexact end;
         vres vaff (g_inverse_affine G)])
     (geom_from_attributes pos ori sp ss nf rows cols).
+
+(* ------------------------------------------------------------------ *)
+(* index arrays of any numpy dtype handed to PixelToReference /        *)
+(* PixelToPixel __call__ (direct constructor or for_images)            *)
+(* ------------------------------------------------------------------ *)
+Inductive dkind := KSigned | KUnsigned | KFloat | KBool.        (* numpy dtype.kind 'i' 'u' 'f' 'b' *)
+Record dtype := DT { dt_kind : dkind; dt_bits : Z }.
+Definition dt_int64 : dtype := DT KSigned 64.
+(* "indices.dtype.kind not in ('u', 'i')" *)
+Definition dt_is_index (dt : dtype) : bool :=
+  match dt_kind dt with KSigned | KUnsigned => true | _ => false end.
+Definition dt_lo (dt : dtype) : Z :=
+  match dt_kind dt with KSigned => (- 2 ^ (dt_bits dt - 1))%Z | _ => 0%Z end.
+Definition dt_hi (dt : dtype) : Z :=
+  match dt_kind dt with
+  | KSigned => (2 ^ (dt_bits dt - 1) - 1)%Z
+  | KUnsigned => (2 ^ dt_bits dt - 1)%Z
+  | KBool => 1%Z
+  | KFloat => 0%Z
+  end.
+(* the value can be stored in an array of that dtype (any value for the float kinds: the
+   harness only writes dyadic values) *)
+Definition dt_holds (dt : dtype) (q : Q) : bool :=
+  match dt_kind dt with
+  | KFloat => true
+  | _ => Qeq_bool q (inject_Z (Qfloor q)) && (dt_lo dt <=? Qfloor q)%Z && (Qfloor q <=? dt_hi dt)%Z
+  end.
+(* __call__ on an (n, w) array of dtype [dt]: "indices.T.astype(float)" forgets the dtype, and
+   "np.around(...).astype(int)" always answers int64 - the dtype of the indices only decides the
+   TypeError guard.  An array holding a value its dtype cannot represent does not exist. *)
+Definition call_p_dt (w : Z) (dt : dtype) (pts : list (list Q)) (f : list (Q * Q) -> val) : val :=
+  if negb (forallb (forallb (dt_holds dt)) pts) then VErr "harness"
+  else call_p w (dt_is_index dt) pts f.
+Definition run_p2r_dt (pos ori sp : arg) (w : Z) (dt : dtype) (pts : list (list Q)) : val :=
+  with_aff (p2r_make pos ori sp) (fun A => call_p_dt w dt pts (fun l => VL (map vvec (call_2to3 A l)))).
+Definition run_p2p_dt (pf of_ sf pt ot st : arg) (round : bool) (w : Z) (dt : dtype) (pts : list (list Q)) : val :=
+  with_aff (p2p_make pf of_ sf pt ot st) (fun A => call_p_dt w dt pts (fun l => vpts (p2p_call A round l))).
+(* PixelToPixelTransformer.for_images(..., round_output=round)(indices of dtype dt) *)
+Definition run_for_images_dt (a b : dset) (fa fb : option Z) (ta tb : bool) (round : bool) (dt : dtype)
+    (pts : list (list Q)) : val :=
+  with_aff (for_images_p2p a b fa fb ta tb) (fun A => call_p_dt 2 dt pts (fun l => vpts (p2p_call A round l))).
+
+(* ------------------------------------------------------------------ *)
+(* volume.py: Volume (array-carrying).  The array has the three spatial *)
+(* sizes FIRST, then one size per channel dimension; [channels] is the  *)
+(* number of values given for each channel descriptor, in dict order.   *)
+(* ------------------------------------------------------------------ *)
+Fixpoint zlist_eqb (a b : list Z) : bool :=
+  match a, b with
+  | [], [] => true
+  | x :: a', y :: b' => (x =? y)%Z && zlist_eqb a' b'
+  | _, _ => false
+  end.
+(* _VolumeBase.__init__ + Volume.__init__ : spatial_shape = array.shape[:3] *)
+Definition vol_make (A : aff) (ashape channels : list Z) : res geom :=
+  if is_orthogonal (lin A) false tol5 then
+    if (length ashape <? 3)%nat then Err EValue
+    else if zlist_eqb channels (skipn 3 ashape) then Ok (Geom A (firstn 3 ashape))
+    else Err EValue
+  else Err EValue.
+(* Volume.from_components: spatial_shape=array.shape[:3] *)
+Definition vol_from_components (ashape channels : list Z) (sp : sarg) (position center : option (list Q))
+    (direction : option (list Q)) (po : option (list ascii)) (patient_cs : bool) : res geom :=
+  let mk := bind (affine_from_components sp position center direction po (Some (firstn 3 ashape)))
+                 (fun A => vol_make A ashape channels) in
+  match po with
+  | Some _ => if patient_cs then mk else Err EValue
+  | None => mk
+  end.
+(* Volume.from_attributes *)
+Definition vol_from_attributes (ashape channels : list Z) (pos ori sp : arg) (ss : Q) : res geom :=
+  bind (affine_from_attributes pos ori sp ss DR true RHs) (fun A => vol_make A ashape channels).
+(* VolumeGeometry.with_array(array, channels) *)
+Definition geom_with_array (G : geom) (ashape channels : list Z) : res geom :=
+  if zlist_eqb (firstn 3 ashape) (g_shape G) then vol_make (g_aff G) ashape channels else Err EValue.
+
+(* map_reference_to_indices(..., check_bounds=True): "min() < -0.5 or max() > spatial_shape[d] - 0.5" *)
+Definition g_in_bounds (G : geom) (v : vec) : bool :=
+  match g_shape G with
+  | [n0; n1; n2] =>
+      negb (Qlt_b (vx v) (- (1 # 2))) && negb (Qlt_b (inject_Z n0 - (1 # 2)) (vx v)) &&
+      negb (Qlt_b (vy v) (- (1 # 2))) && negb (Qlt_b (inject_Z n1 - (1 # 2)) (vy v)) &&
+      negb (Qlt_b (vz v) (- (1 # 2))) && negb (Qlt_b (inject_Z n2 - (1 # 2)) (vz v))
+  | _ => false
+  end.
+Definition g_map_reference_to_indices_checked (G : geom) (pts : list vec) : res (list vec) :=
+  bind (g_map_reference_to_indices G pts) (fun l =>
+  if forallb (g_in_bounds G) l then Ok l else Err ERuntime).
+Definition g_center_indices (G : geom) : res vec :=
+  match g_shape G with
+  | [n0; n1; n2] => Ok (V3 ((inject_Z n0 - 1) / 2) ((inject_Z n1 - 1) / 2) ((inject_Z n2 - 1) / 2))
+  | _ => Err EValue
+  end.
+
+(* observation of a Volume: [geometry observation; spatial_shape; channel_shape; physical_extent;
+   center_indices; get_geometry() affine and spatial shape; for every probe index p:
+   map_reference_to_indices(map_indices_to_reference(p), check_bounds=True)] *)
+Definition vzl (l : list Z) : val := VL (map VZ l).
+Definition vvol (to : string) (ashape : list Z) (probes : list (list Q)) (G : geom) : val :=
+  VL [vgeom to G; vzl (g_shape G); vzl (skipn 3 ashape);
+      match g_physical_extent G with Some v => vvec v | None => vinexact end;
+      vres vvec (g_center_indices G);
+      VL [vaff (g_aff G); vzl (g_shape G)];
+      vres (fun l => VL (map (fun p => vres (fun r => VL (map vvec r))
+                                        (g_map_reference_to_indices_checked G (g_map_indices_to_reference G [p]))) l))
+           (rows3 probes)].
+Definition run_vol_comp (ashape channels : list Z) (sp : sarg) (position center direction : option (list Q))
+    (po : option string) (patient_cs : bool) (to : string) (probes : list (list Q)) : val :=
+  vres (vvol to ashape probes)
+       (vol_from_components ashape channels sp position center direction (ochars po) patient_cs).
+Definition run_vol_attr (ashape channels : list Z) (pos ori sp : arg) (ss : Q) (to : string)
+    (probes : list (list Q)) : val :=
+  vres (vvol to ashape probes) (vol_from_attributes ashape channels pos ori sp ss).
+(* VolumeGeometry.from_components(spatial_shape, ...).with_array(array, channels) *)
+Definition run_vol_with_array (shape ashape channels : list Z) (sp : sarg)
+    (position center direction : option (list Q)) (po : option string) (patient_cs : bool) (to : string)
+    (probes : list (list Q)) : val :=
+  vres (vvol to ashape probes)
+       (bind (geom_from_components shape sp position center direction (ochars po) patient_cs)
+             (fun G => geom_with_array G ashape channels)).
